@@ -112,10 +112,13 @@ class _Aliased(dict):
     def __init__(self, *a):
         super().__init__(*a)
         self.alias = {}
+        self.alias_obj = {}         # old key -> the object itself (a function that now lives in another table)
 
     def __missing__(self, k):
         if k in self.alias:
             return dict.__getitem__(self, self.alias[k])
+        if k in self.alias_obj:
+            return self.alias_obj[k]
         raise KeyError(k)
 
     def get(self, k, d=None):
@@ -125,7 +128,7 @@ class _Aliased(dict):
             return d
 
     def __contains__(self, k):
-        return dict.__contains__(self, k) or k in self.alias
+        return dict.__contains__(self, k) or k in self.alias or k in self.alias_obj
 
 
 class Model:
@@ -179,6 +182,7 @@ class Model:
         for c in self.classes.values():
             c.bases = [b.attr if isinstance(b, ast.Attribute) else getattr(b, 'id', ast.unparse(b)) for b in c.node.bases]
         self._rename_aliases()
+        self._moved_aliases()
         self._absorber_aliases()
         self._decorator_aliases()
         self.mro = {c: self._c3(c) for c in self.classes}
@@ -186,6 +190,47 @@ class Model:
         self._switch_tables()
         self._registry()
         self._roles()
+
+    def _moved_aliases(self):
+        """A module-level function of the reviewed tree that now lives in another module of the package under the same name
+        (same body, or the same vocabulary when it was restyled on the way): the old key and the old module's table keep
+        answering with it."""
+        from . import inline
+        baseline = inline.baseline_functions()
+        vocab = inline._baseline_vocab()
+        self.moved = {}
+        for old, d in baseline.items():
+            if dict.__contains__(self.funcs, old) or old in self.funcs.alias or '.' in old.split(':')[1] or '@' in old:
+                continue
+            omod, name = old.split(':')
+            cands = [f for f in self.funcs.values() if f.parent is None and f.cls is None and f.name == name and f.mod != omod and f.key not in baseline]
+            if len(cands) != 1:
+                continue
+            f = cands[0]
+            same = inline._digest(f.node) == d
+            if not same and old in vocab:
+                words = set()
+                for x in ast.walk(f.node):
+                    if x is f.node:
+                        continue
+                    if isinstance(x, ast.Name):
+                        words.add(x.id)
+                    elif isinstance(x, ast.Attribute):
+                        words.add(x.attr)
+                    elif isinstance(x, ast.Constant) and not (isinstance(x.value, str) and len(x.value) > 20):
+                        words.add(repr(x.value))
+                import re as _re
+                words = {_re.sub(r'^_inl\d+_', '', w) for w in words}
+                ov = vocab[old][1]
+                # the name itself says most of it (one function of that name vanished, one appeared elsewhere); the vocabulary only
+                # has to be related, since a move is often combined with restyling
+                same = len(ov & words) / max(1, len(ov | words)) >= 0.25
+            if same:
+                self.funcs.alias_obj[old] = f
+                if not isinstance(self.modfuncs[omod], _Aliased):
+                    self.modfuncs[omod] = _Aliased(self.modfuncs[omod])
+                self.modfuncs[omod].alias_obj[name] = f
+                self.moved[old] = f.key
 
     def _absorber_aliases(self):
         """A function of the reviewed tree that is gone because it was folded into its ONE caller: the old key answers with that
